@@ -100,6 +100,9 @@ func (it *Generator) Send(arg Object) (Object, error) {
 	res, err := VmRunFrame(it.Frame)
 	it.Running = false
 	if err != nil {
+		// A generator that finished by raising is exhausted: it
+		// must not be resumed after the raising instruction
+		it.Frame.Yielded = false
 		return nil, err
 	}
 	if it.Frame.Yielded {
